@@ -37,7 +37,7 @@ THEOREMS = [
         "am_rigid_limit forms_agree forms_agree_cbtf accImp_additive forms_agree_empty_qset "
         "pv_empty_qset_order_matters layout_injective layout_in_bounds "
         # Props/C15b (cb.cbtf in full), C15c (ntfl complete), C15d (routes, low-frequency expansion), C15e (limit)
-        "cbtf_eom cbtf_frc_blocks cbtf_force_eq_am_times_accel cbtf_force_zero_freq cbtf_zero_freq cbtf_outputs_def cbtf_accel_eq calcAM_pv_eq_cbtfAM calcAM_pv_zero_freq cbtf_save_transparent cbtf_save_not_keyed cbtfE_force_eq_am_times_accel cbtfE_vs_general flippv_partitions bset_isPartition parallel_sum_comm nt_reciprocity nt_reciprocity_matrix nt_force_operator_symmetric ntfl_congruence ntfl_R_trace_invariant ntfl_scaling ntfl_R_not_invariant ntfl_pointwise slice3F_pack3F ntflColF_spec ntA_col packAs_vector packAs_matrix routes_agree_general routes_agree_solvers routes_difference routes_agree_beyond_cb routes_disagree_noncb drm_zero_freq drm_congruence forms_agree_scaled_selection dyn_stiffness_schur_expansion am_low_frequency_expansion lowfreq_regular_tendsto am_low_frequency_limit cb_transform_blocks cb_form_determinate cbtf_low_frequency_expansion cbtf_zero_freq_is_limit"
+        "cbtf_eom cbtf_frc_blocks cbtf_force_eq_am_times_accel cbtf_force_zero_freq cbtf_zero_freq cbtf_outputs_def cbtf_accel_eq calcAM_pv_eq_cbtfAM calcAM_pv_zero_freq cbtf_save_transparent cbtf_save_not_keyed cbtfE_force_eq_am_times_accel cbtfE_vs_general cbtfE_outputs_def flippv_partitions bset_isPartition bset_isPartition_E parallel_sum_comm nt_reciprocity nt_reciprocity_matrix nt_force_operator_symmetric ntfl_congruence ntfl_R_trace_invariant ntfl_scaling ntfl_R_not_invariant ntfl_pointwise slice3F_pack3F ntflColF_spec ntA_col packAs_vector packAs_matrix routes_agree_general routes_agree_solvers routes_difference routes_agree_beyond_cb routes_disagree_noncb drm_zero_freq drm_congruence forms_agree_scaled_selection dyn_stiffness_schur_expansion am_low_frequency_expansion lowfreq_regular_tendsto am_low_frequency_limit cb_transform_blocks cb_form_determinate cbtf_low_frequency_expansion cbtf_zero_freq_is_limit"
     ).split()
 ]
 TRUSTED = [
@@ -93,7 +93,7 @@ MANIFEST = {
     "Schur complement at every non-zero frequency and m_bb a at f = 0 (`cbtf_force_eq_am_times_accel`, "
     "`cbtf_force_zero_freq`, `cbtf_zero_freq`), calcAM assembled column by column is that AM (`calcAM_pv_eq_cbtfAM`), a "
     "warm `save` equals a cold call (`cbtf_save_transparent`; the entry is not keyed by the model: `cbtf_save_not_keyed`), "
-    "the empty-q-set branch agrees with the general one (`cbtfE_vs_general`), `bset ++ flippv` is a permutation of the DOF "
+    "the empty-q-set branch IS the general one on frc, a, d, v (`cbtfE_vs_general`, `cbtfE_outputs_def`; model order, F59), `bset ++ flippv` is a permutation of the DOF "
     "(`flippv_partitions`) and the index functions built from the vector are a partition (`bset_isPartition`). ntfl complete: loop body = the formulas for any solver meeting la.solve's specification "
     "(`ntflColF_spec`), frequency-by-frequency independence (`ntfl_pointwise`), (b x freq x b) packing round trip "
     "(`slice3F_pack3F`, `layout_injective`), packaging of As (`packAs_vector`, `packAs_matrix`), exchange of source and load "
@@ -115,8 +115,8 @@ MANIFEST = {
     "solvers (hypotheses of the theorems; verified exactly in the exact streams, measured in the numeric ones); rounding "
     "outside the theorems; calcAM(f = 0) through SolveUnc's rigid-body branch is tied, not proved (`drm_zero_freq` starts "
     "from its accelerance). Not in the property's statement and not modelled: frclim.sefl / stdfs / ctdfs (semi-empirical "
-    "force limits). Observation (outside the statement): with an empty q-set cb.cbtf returns a, d, v in b-set order, with a "
-    "non-empty q-set in model order (`cbtfE_vs_general`).",
+    "force limits). cb.cbtf with an empty q-set returns a, d, v in model order since the fix recorded as F59 (family "
+    "cbtf-empty-qset-responses-in-bset-order): the model follows the repaired code, the oracle keeps tf.a[bset] == a as a rule.",
     "technique": "Lean 4 proof (ring identities, Schur complements of Mathlib block matrices, function matrices over Fin n, "
     "Filter.Tendsto for the low-frequency limit) + numeric and exact differential correspondence of the same definitions + "
     "model-free direct-coupling oracle",
@@ -780,6 +780,8 @@ def _corr_cbtf(ctx, drv, cb):
             ctx.count("cbtf:f=0")
         if c["nq"] == 0:
             ctx.count("cbtf:empty-qset")
+            if np.any(np.diff(c["bset"]) < 0):
+                ctx.count("cbtf:empty-qset-unsorted")  # the inputs of finding F59 (a, d, v in model order)
         if np.any(np.diff(c["bset"]) < 0):
             ctx.count("cbtf:unsorted")
         try:
@@ -1070,12 +1072,6 @@ def correspondence(ctx):
     _corr_cbtf(ctx, drv, cb)
     _corr_drm(ctx, drv, frclim, ode)
     _corr_pv(ctx, drv, frclim, ode)
-    # not judged (outside the property's statement, which only uses `frc`): see `cbtfE_vs_general`
-    ctx.extra["observations"] = [
-        "cb.cbtf returns a, d, v in b-set order when the q-set is empty and in model order otherwise: for an all-boundary "
-        "model with an unordered partition vector tf.a[bset] != a (cb.cbtf(diag(1,2,3), 0, 0, [10,20,30], [1.0], [2,0,1]).a "
-        "is [10,20,30], not [20,30,10]); frc is in b-set order in both branches"
-    ]
     ctx.require_branches(
         ["ntfl-arrays:b=%d" % b for b in range(1, 7)]
         + ["calcAM-drm:default:select", "calcAM-drm:default:dense", "calcAM-drm:default:signed", "calcAM-drm:default:scaled",
@@ -1085,7 +1081,7 @@ def correspondence(ctx):
            "flippv", "packa:ok", "packa:err", "packas:ok", "packas:err", "ntfl-exact:diag", "ntfl-exact:perm",
            "cbtf-exact:empty-qset", "cbtf-exact:diag-qq", "cbtf-exact:full-qq",
            "cbtf:a=vec", "cbtf:a=col", "cbtf:a=mat", "cbtf:save=none", "cbtf:save=dict", "cbtf:save=warm", "cbtf:f=0",
-           "cbtf:empty-qset", "cbtf:unsorted"]
+           "cbtf:empty-qset", "cbtf:empty-qset-unsorted", "cbtf:unsorted"]
     )
 
 
@@ -1290,11 +1286,12 @@ def _cbtf_check(inp, cb):
         a = a[:, None]
     if a.shape[1] == 1:
         a = np.repeat(a, nf, axis=1)
-    if q.size == 0:
-        acc, dis, vel = (np.zeros((n_, nf), complex) for _ in range(3))
-        acc[bset], dis[bset], vel[bset] = tf.a, tf.d, tf.v  # this branch returns a, d, v in b-set order
-    else:
-        acc, dis, vel = np.asarray(tf.a), np.asarray(tf.d), np.asarray(tf.v)
+    acc, dis, vel = np.asarray(tf.a), np.asarray(tf.d), np.asarray(tf.v)  # MODEL order, with or without a q-set
+    if acc.shape == (n_, nf) and q.size == 0 and not np.array_equal(acc[bset], a):
+        # regression rule of finding F59 (repaired in /repo ed802cc): tf.a[bset] == a also when every DOF is a b-set DOF
+        return {"family": "cbtf-empty-qset-responses-in-bset-order",
+                "what": "cb.cbtf with an empty q-set: the returned a (d, v) are not in model order, tf.a[bset] != a",
+                "input": inp, "observed": {"tf.a[bset]": _enc(acc[bset])}, "required": {"a": _enc(a)}}
     if acc.shape != (n_, nf) or np.asarray(tf.frc).shape != (r, nf):
         return {"family": "cbtf-output-shape-" + fam, "what": "shapes of the returned arrays", "input": inp,
                 "observed": [list(np.shape(tf.frc)), list(np.shape(tf.a))], "required": [[r, nf], [n_, nf]]}
